@@ -438,6 +438,7 @@ class Unit:
             text = rx.r4_visibility_item(text, 'fn', in_trait_impl=trait_impl)
         text = self.rewrite(text, out, it.name)
         bo, ret, where_pos = rx.fn_signature_parts(text)
+        has_body = bo is not None
         if bo is None:
             # trait method declaration: contract goes before the final `;`
             bo = len(text.rstrip()) - 1
@@ -469,7 +470,7 @@ class Unit:
                 edits.append((rb, re_, '%s(r: %s)%s' % (lead if lead else ' ', rts, trail if trail else ' ')))
                 out.count('R5', 1)
         sig_lines = block_lines(secs.get(('sig', None), []))
-        if canary_on and (has_sig or default) and not (ret is not None and text[ret[0]:ret[1]].strip() == '!'):
+        if canary_on and has_body and (has_sig or default) and not (ret is not None and text[ret[0]:ret[1]].strip() == '!'):
             sig_lines = add_canary(sig_lines, fid)
         if sig_lines:
             inserts.append((bo, sig_lines))
@@ -631,7 +632,7 @@ class Unit:
                         'imported': getattr(self, 'cur_imported', False), 'safety': opts.get('safety', '').split(',') if opts.get('safety') else None,
                         'sites': sites,
                         'default': default, 'file': rel, 'src_line': src_line,
-                        'diverges': ret is not None and text[ret[0]:ret[1]].strip() == '!'})
+                        'diverges': (ret is not None and text[ret[0]:ret[1]].strip() == '!') or not has_body})
         out.raw_extract.append((fid, raw, text))
 
 
